@@ -55,6 +55,14 @@ SHAPES = [
     ('chain-under-quantifier-in-spec', 'external-spec', 'spec: forall X (p(X) -> exists N$i (1 <= N$i <= 3 and X = N$i)). '
      'assumption: exists N$i (0 <= N$i < 5). spec: forall X (q(X) <-> exists Y$i (X = Y$i and 1 <= Y$i <= 3) or p(X)).',
      'q(X) :- p(X). q(1..3). :- p(X), X < 1. :- p(X), X > 3. :- p(X), X != 1, X != 2, X != 3.', 'input: p/1. output: q/1.'),
+    ('constants-in-rare-positions', 'external-spec',
+     'spec: forall X (p(X) -> exists N$i (X = N$i and 1 <= N$i <= n$i)). spec: forall X$i (p(X$i) <- q(X$i) and X$i = 3 - (-m$i)). '
+     'assumption: forall X (q(X) -> X != c$g and X != d$s and X > 0 > k$i * 2). spec: forall X (p(X) -> not X = e).',
+     'p(X) :- q(X), X = 1..n, X = 3 + m.', 'input: n -> integer. input: m -> integer. input: k -> integer. input: c -> general. input: d -> symbol. '
+     'input: q/1. output: p/1.'),
+    ('symbols-in-rare-positions', 'strong', 'p(X) :- q(X), X != a, b < X, not r(c, X). r(d, e) :- not q(f).',
+     'p(X) :- q(X), a != X, not r(c, X), X > b. r(d, e) :- not not r(d, e), not q(f).', None),
+    ('many-conjectures', 'strong', 'p. q. r. s.', 'p :- q. q :- r. r :- s. s.', None),
     ('keyword-like-names', 'strong', 'tff(axiom) :- type(conjecture).', 'tff(axiom) :- type(conjecture), not fof.', None),
     ('uppercase-in-symbols', 'strong', 'p(aB_c9) :- q(zZ).', 'p(aB_c9) :- q(zZ), q(zZ).', None),
     ('many-symbols-order', 'strong', 'p(b, a, c, ab, aa, a0, a_, aB).', 'p(b, a, c, ab, aa, a0, a_, aB) :- not q.', None),
